@@ -213,6 +213,8 @@ func c11Inputs(r *rand.Rand, g *gen.G, i int) string {
 		"MERGE INTO t USING s ON t.a = s.a AND s.b > (SELECT MIN(c) FROM u) WHEN MATCHED AND t.x < 1 THEN UPDATE SET x = s.x + 1 WHEN NOT MATCHED THEN INSERT (a, b) VALUES (s.a, f(s.b))",
 		"INSERT INTO t (a, b) SELECT a, CASE a WHEN 1 THEN 'x' ELSE 'y' END FROM u WHERE a > ANY (SELECT b FROM v); UPDATE t SET a = (SELECT 1) WHERE b = 2; DELETE FROM t WHERE a IN (SELECT a FROM u)",
 		"CREATE VIEW v AS SELECT a FROM t WHERE a = (SELECT MAX(b) FROM u GROUP BY c HAVING COUNT(*) > 1)",
+		"INSERT INTO t (a, b) VALUES (1, f(2)) ON CONFLICT (a) DO UPDATE SET b = g(t.b + (SELECT MAX(c) FROM u)), a = CASE WHEN x THEN 1 ELSE 2 END WHERE t.b > h(3) AND t.a IN (SELECT d FROM v) RETURNING a, k(b)",
+		"INSERT INTO t (a) VALUES (f(1)), (g(2)) ON DUPLICATE KEY UPDATE a = h(a) + (SELECT 1)",
 		"SELECT " + strings.Repeat("a + ", 60) + "1 FROM t WHERE " + strings.Repeat("b = 1 AND ", 40) + "c = 2",
 		// wide statements that never reach an expression, and long comment runs
 		"CREATE TABLE wide (" + strings.Repeat("c INT, ", 900) + "z INT)",
